@@ -33,9 +33,40 @@ struct SettingsReq {
     include_defs: Option<bool>,
 }
 
+/// one step of a script on ONE CellBuffer object (entry "script"): the buffer is built from the request's input and
+/// then read and written through its public API, as a caller that keeps the object would
+#[derive(Deserialize, Clone)]
+#[serde(tag = "op")]
+enum Op {
+    #[serde(rename = "render")]
+    Render {
+        #[serde(default)]
+        settings: SettingsReq,
+    },
+    #[serde(rename = "override")]
+    Override {
+        #[serde(default)]
+        settings: SettingsReq,
+        w: f32,
+        h: f32,
+    },
+    #[serde(rename = "node")]
+    NodeDefault,
+    #[serde(rename = "insert")]
+    Insert { x: i32, y: i32, ch: u32 },
+    #[serde(rename = "remove")]
+    Remove { x: i32, y: i32 },
+    #[serde(rename = "css")]
+    Css { name: String, decl: String },
+    #[serde(rename = "clone")]
+    CloneSelf,
+}
+
 #[derive(Deserialize, Clone)]
 struct Request {
     id: u64,
+    #[serde(default)]
+    ops: Vec<Op>,
     input: String,
     #[serde(default = "default_entry")]
     entry: String,
@@ -102,8 +133,53 @@ fn convert(req: &Request) -> String {
             req.w,
             req.h,
         ),
+        "script" => script(req),
         other => panic!("bobdrive: unknown entry {}", other),
     }
+}
+
+/// record separator between the documents a script renders (cannot occur inside a document: U+001E is not an XML Char)
+const SEP: &str = "\n\u{1e}\n";
+
+fn script(req: &Request) -> String {
+    use svgbob::{Cell, CellBuffer, Node};
+    let mut cb = CellBuffer::from(req.input.as_str());
+    let mut out: Vec<String> = vec![];
+    for op in &req.ops {
+        match op {
+            Op::Render { settings } => {
+                let (node, _w, _h): (Node<()>, f32, f32) = cb.get_node_with_size(&settings_of(settings));
+                let mut b = String::new();
+                node.render(&mut b).expect("must render");
+                out.push(b);
+            }
+            Op::Override { settings, w, h } => {
+                let node: Node<()> = cb.get_node_override_size(&settings_of(settings), *w, *h);
+                let mut b = String::new();
+                node.render(&mut b).expect("must render");
+                out.push(b);
+            }
+            Op::NodeDefault => {
+                let node: Node<()> = cb.get_node();
+                let mut b = String::new();
+                node.render(&mut b).expect("must render");
+                out.push(b);
+            }
+            Op::Insert { x, y, ch } => {
+                cb.insert(Cell::new(*x, *y), char::from_u32(*ch).expect("scalar value"));
+            }
+            Op::Remove { x, y } => {
+                cb.remove(&Cell::new(*x, *y));
+            }
+            Op::Css { name, decl } => {
+                cb.add_css_styles(vec![(name.clone(), decl.clone())]);
+            }
+            Op::CloneSelf => {
+                cb = cb.clone();
+            }
+        }
+    }
+    out.join(SEP)
 }
 
 thread_local! {
